@@ -27,7 +27,7 @@ BUILD = os.path.join(VERIF, "build")
 EVID = os.path.join(VERIF, "evidence")
 REPLAYS = os.path.join(EVID, "replays")
 COQ_ARGS = ["-Q", os.path.join(COQ, "theories"), "RM", "-Q", os.path.join(COQ, "props"), "RMP",
-            "-Q", os.path.join(COQ, "run"), "RMR"]
+            "-Q", os.path.join(COQ, "run"), "RMR", "-Q", os.path.join(COQ, "trans"), "RMT"]
 
 if REPO not in sys.path:
     sys.path.insert(0, REPO)
@@ -287,6 +287,53 @@ def check_theorems(prop, expected):
     return ok, det
 
 
+def check_translation(prop, spec):
+    """second tie (DESIGN 3b): translate the source named by `spec` from REPO's CURRENT working tree into Gallina with
+    the fail-closed translator, compile the generated definitions and then the hand-written equivalence proofs
+    (coq/trans/<proofs>) against them.  returns (ok, details)."""
+    import importlib
+    import shutil
+    import tempfile
+    det = {"translator": spec["translator"], "source": spec["source"], "proofs": spec["proofs"]}
+    tr = importlib.import_module(spec["translator"])
+    try:
+        text = tr.translate(os.path.join(REPO, spec["source"]))
+    except tr.Untranslatable as ex:
+        det["error"] = "the translator refuses the source (fail-closed): %s" % ex
+        return False, det
+    except Exception as ex:  # noqa
+        det["error"] = "the translator could not read the source: %r" % (ex,)
+        return False, det
+    det["generated_sha256"] = hashlib.sha256(text.encode()).hexdigest()
+    proofs_src = os.path.join(COQ, "trans", spec["proofs"])
+    ptext = open(proofs_src).read()
+    for badtok in ("Admitted", "admit.", "Axiom ", "Parameter ", "Conjecture ", "Unset Guard", "bypass_check"):
+        if badtok in ptext or badtok in text:
+            det["error"] = "forbidden token %r in the generated file or its proofs" % badtok
+            return False, det
+    os.makedirs(BUILD, exist_ok=True)
+    d = tempfile.mkdtemp(prefix="trans_%s_" % prop, dir=BUILD)
+    try:
+        open(os.path.join(d, spec["gen"]), "w").write(text)
+        shutil.copy(proofs_src, os.path.join(d, spec["proofs"]))
+        args = COQ_ARGS + ["-Q", d, "RMG"]
+        for f in (spec["gen"], spec["proofs"]):
+            r = subprocess.run(["timeout", "600", "coqc"] + args + [os.path.join(d, f)], cwd=COQ, stdout=subprocess.PIPE,
+                               stderr=subprocess.STDOUT, text=True)
+            if r.returncode != 0:
+                det["error"] = "coqc %s failed: the code no longer matches the model it was proved equal to" % f
+                det["output"] = r.stdout[-2500:]
+                return False, det
+        closed = r.stdout.count("Closed under the global context")
+        n_print = len(re.findall(r"Print Assumptions", ptext))
+        missing = [t for t in spec["theorems"] if not re.search(r"(Theorem|Lemma)\s+%s\b" % re.escape(t), ptext)]
+        det.update({"theorems": [t for t in spec["theorems"] if t not in missing], "missing": missing,
+                    "print_assumptions": n_print, "closed": closed})
+        return (not missing) and closed == n_print and n_print >= len(spec["theorems"]) and "Axioms:" not in r.stdout, det
+    finally:
+        shutil.rmtree(d, ignore_errors=True)
+
+
 SHARD = 300
 
 
@@ -474,6 +521,10 @@ def main(mod, prop, tier, seed, replay=None):
     ok_build, build_out = ensure_built()
     thm_ok, thm_det = (False, {"error": "build failed", "output": build_out}) if not ok_build else \
         check_theorems(prop, mod.THEOREMS)
+    if ok_build and getattr(mod, "TRANSLATED", None):
+        tr_ok, tr_det = check_translation(prop, mod.TRANSLATED)
+        thm_det["translation"] = tr_det
+        thm_ok = thm_ok and tr_ok
 
     # ---- inputs: corpus first, then generated
     if replay:
